@@ -198,6 +198,58 @@ def cases(modules):
             except Exception as e:   # noqa: BLE001
                 want = "raise:" + type(e).__name__
             out.append(("wsgi_helpers.WellknownRedirector.__call__", "wk %s %s" % (enc(sc), enc(pi)), want, (sc, pi)))
+    if "IterChanges" in modules:
+        import random
+        from xandikos.store.git import GitStore
+        rng = random.Random(11)
+        q = lambda s: urllib.parse.quote(s, safe="")
+
+        def listing(names):
+            return [(n, "text/vcard" if n.endswith(".vcf") else "text/calendar", rng.choice(["e1", "e2", "e3"])) for n in names]
+        pool = ["a.ics", "b.ics", "c d.ics", "k.vcf", ".draft.ics", "z:é.ics"]
+        for _ in range(400):
+            olds = listing(sorted(rng.sample(pool, rng.randint(0, len(pool)))))
+            news = listing(sorted(rng.sample(pool, rng.randint(0, len(pool)))))
+            if rng.random() < 0.05 and olds and news:          # the assertion: same name, another content type
+                news[0] = (olds[0][0], "application/octet-stream", news[0][2])
+                news = [x for k, x in enumerate(news) if k == 0 or x[0] != news[0][0]]
+
+            class Stub:
+                def iter_with_etag(self, ctag, _o=olds, _n=news):
+                    return iter(_o if ctag == "old" else _n)
+            try:
+                rows = list(GitStore.iter_changes(Stub(), "old", "new"))
+                want = "=" + ",".join("%s:%s:%s:%s" % (q(n), q(ct), "~" if o is None else q(o), "~" if e is None else q(e))
+                                      for n, ct, o, e in rows)
+            except Exception as e:   # noqa: BLE001
+                want = "raise:" + type(e).__name__
+            enc_l = lambda l: ",".join("%s:%s:%s" % (q(a), q(b), q(c)) for a, b, c in l) or "-"
+            out.append(("git.GitStore.iter_changes", "ic %s %s" % (enc_l(olds), enc_l(news)), want, (olds, news)))
+    if "Gates" in modules:
+        import ast
+        import translate
+        from xandikos.webdav import etag_matches as real_etag_matches
+        hs = [None, "", "*", '"aaa"', '"bbb"', '"aaa", "bbb"', "aaa", 'W/"aaa"', " ", '"bbb",*']
+        curs = [None, '"aaa"', '"bbb"']
+        for g in translate.GATES:
+            region, hdrs, tests = translate.gate_region(g)
+            # the statements of the gate, as they stand in the handler, run as a function of their own
+            fn = ast.FunctionDef(name="gate", args=ast.arguments(posonlyargs=[], args=[ast.arg("request"), ast.arg("current_etag")],
+                                 kwonlyargs=[], kw_defaults=[], defaults=[]),
+                                 body=list(region) + [ast.Return(ast.Constant("pass"))], decorator_list=[], type_params=[])
+            mod = ast.fix_missing_locations(ast.Module(body=[fn], type_ignores=[]))
+            ns = {"etag_matches": real_etag_matches, "Response": lambda **kw: "refused"}
+            exec(compile(mod, "<gate of %s>" % g["lean"], "exec"), ns)
+            order = [v for h in ("If-Match", "If-None-Match") for v, hh in hdrs.items() if hh == h]
+            import itertools as _it
+            for combo in _it.product(hs, repeat=len(order)):
+                for cur in curs:
+                    class Rq:
+                        headers = {hdrs[v]: c for v, c in zip(order, combo) if c is not None}
+                    want = _pybool(lambda: ns["gate"](Rq, cur) == "refused")
+                    op = {"put_refuses": "pg", "delete_refuses": "dg", "get_not_modified": "gg"}[g["lean"]]
+                    out.append(("webdav gate " + g["lean"], "%s %s %s" % (op, " ".join(enc(c) for c in combo), enc(cur)),
+                                want, (g["lean"], combo, cur)))
     if "TimeRange" in modules:
         out.extend(_timerange_cases())
     if "PathMap" in modules:
@@ -245,7 +297,10 @@ def validate(chk, modules):
         # compare decoded texts (the two sides may percent-encode differently)
         same = (g == want) or (g[:1] in "=~" and want[:1] in "=~" and
                                [dec("=" + x) for x in g[1:].split(",")] == [dec("=" + x) for x in want[1:].split(",")]
-                               if fn == "icalendar._unescape_text" else
+                               if fn in ("icalendar._unescape_text", "git.GitStore.iter_changes") and ":" not in g + want else
+                               [[dec("=" + y) if y != "~" else None for y in x.split(":")] for x in g[1:].split(",")] ==
+                               [[dec("=" + y) if y != "~" else None for y in x.split(":")] for x in want[1:].split(",")]
+                               if fn == "git.GitStore.iter_changes" else
                                g[:1] in "=~" and want[:1] in "=~" and dec(g) == dec(want))
         if not same:
             bad.setdefault(fn, []).append({"args": args, "python": want, "generated": g})
@@ -270,7 +325,8 @@ def regen(chk, modules):
     for m in modules:
         text, err = res[m]
         funcs = ", ".join(s["func"] for s in translate.SPECS + translate.SCAN_SPECS if s["module"] == m) or \
-            {"Wellknown": "WellknownRedirector.__call__, WELLKNOWN_DAV_PATHS"}.get(m, m)
+            {"Wellknown": "WellknownRedirector.__call__, WELLKNOWN_DAV_PATHS", "IterChanges": "GitStore.iter_changes",
+             "Gates": "precondition gates of PutMethod.handle, DeleteMethod.handle, _do_get"}.get(m, m)
         tr[funcs] = "ok" if text else "unavailable: " + err
         if err:
             chk.notes.append("translation of %s unavailable (%s): tied by correspondence only" % (funcs, err))
